@@ -111,10 +111,10 @@ def m3(proj, rep):
         return ast.unparse(e).replace(' ', '')
     # unpacking names from the helper
     unp = next((s for s in f.node.body if isinstance(s, ast.Assign) and isinstance(s.targets[0], ast.Tuple) and '_measure_quantum_vector_hf0' in t(s.value)), None)
-    if unp is None or len(unp.targets[0].elts) != 3:
+    if unp is None or len(unp.targets[0].elts) < 3:
         rep.undecided('M3', f.qual, 'helper unpacking (shape, keep_dim, reduce_dim) not found', m, f.node, text='helper')
         return 0
-    shp, keep, red = [e.id for e in unp.targets[0].elts]
+    shp, keep, red = [e.id for e in unp.targets[0].elts[:3]]
     # (c) helper roles
     h = proj.func('numqi.sim.state._measure_quantum_vector_hf0')
     n += 1
@@ -123,7 +123,7 @@ def m3(proj, rep):
     kind_ok = 'kind[list(index)]=1' in hs
     kd = next((s for s in h.node.body if isinstance(s, ast.Assign) and isinstance(s.targets[0], ast.Name) and s.targets[0].id == 'keep_dim'), None)
     rd = next((s for s in h.node.body if isinstance(s, ast.Assign) and isinstance(s.targets[0], ast.Name) and s.targets[0].id == 'reduce_dim'), None)
-    if ret is None or kd is None or rd is None or t(ret.value) != '(shape,keep_dim,reduce_dim)':
+    if ret is None or kd is None or rd is None or not t(ret.value).startswith('(shape,keep_dim,reduce_dim'):
         rep.undecided('M3', h.qual, 'helper structure not recognised', m, h.node, text='helper roles')
         n -= 1
     elif kind_ok and 'ify[0]==1' in t(kd.value) and 'ify[0]==0' in t(rd.value) and 'enumerate(z0)' in t(kd.value) and 'enumerate(z0)' in t(rd.value):
